@@ -19,6 +19,13 @@ CHECKS = {
             "Trusts CPython bytes.find/slicing in the reference scanner; readers are full-read seekable files."),
 }
 
+CHECKS["C09"] = ("exploration", "DESIGN.md §7 C09",
+    "deterministic simulation: seek/read/tell histories on a simulated device vs byte-slice model; detection variants; seeded + systematic op pairs",
+    "Seeded histories (1-24 ops) and all ordered pairs of 22 op classes on one long-lived XorEncodedFile over a simulated "
+    "file, compared step by step with a byte-slice model; detection (from_file) is exercised over stub/marker/size "
+    "variants built by an independent encoder; negatives must raise ValueError.",
+    "Trusts the independent rolling-XOR encoder (anchored: it reproduces the repository's XorEncoded samples) and BytesIO semantics.")
+
 NOT_APPLICABLE = {
     "C02": "Pure function config-block bytes -> settings/views; no schedule, clock, fault, reader state or history for a simulator to control.",
     "C03": "Pure decoders of binary sub-encodings (bytes -> steps/strings); nothing to inject or interleave.",
